@@ -47,8 +47,13 @@ def build(slices, batched):
     else:
         s = slices[0]
         S = S_matrix(N, M)
-        S.S11, S.S12 = j2m(s["S11"], M, N), j2m(s["S12"], M, M)
-        S.S21, S.S22 = j2m(s["S21"], N, N), j2m(s["S22"], N, M)
+        if (N + M) % 2 == 0:
+            # the blocks the constructor allocated are filled IN PLACE (as Structure.split_in_out does)
+            S.S11[...], S.S12[...] = j2m(s["S11"], M, N), j2m(s["S12"], M, M)
+            S.S21[...], S.S22[...] = j2m(s["S21"], N, N), j2m(s["S22"], N, M)
+        else:
+            S.S11, S.S12 = j2m(s["S11"], M, N), j2m(s["S12"], M, M)
+            S.S21, S.S22 = j2m(s["S21"], N, N), j2m(s["S22"], N, M)
     return S
 
 
